@@ -115,7 +115,8 @@ bool scan_tokens(const std::string &c, std::vector<Tok> &toks)
 		t.len = 10;
 		if (t.y < 1700 || t.y > 2400 || t.m < 1 || t.m > 12 || t.d < 1 || t.d > (int)model::mdays(t.y, t.m))
 			return false;
-		if (i + 10 < n && c[i + 10] == 'T' && i + 11 < n && isdig(c[i + 11])) {
+		bool hour_only = i + 14 <= n && isdig(c[i + 11]) && isdig(c[i + 12]) && c[i + 13] == ':' && (i + 14 >= n || !isdig(c[i + 14]));
+		if (i + 10 < n && c[i + 10] == 'T' && i + 11 < n && isdig(c[i + 11]) && !hour_only) {
 			if (i + 19 > n)
 				return false;
 			for (int k : {11, 12, 14, 15, 17, 18})
@@ -135,6 +136,13 @@ bool scan_tokens(const std::string &c, std::vector<Tok> &toks)
 				t.len = 25;
 			else if (i + 19 < n && c[i + 19] == 'Z')
 				t.len = 20;
+		}
+		/* a date, a separator, an hour, a colon and then no minute: the date is the value, the rest is text */
+		if (!t.hastime && i + t.len + 4 <= n + 0 && (c[i + 10] == ' ' || c[i + 10] == 'T' || c[i + 10] == '\t') && isdig(c[i + 11]) && isdig(c[i + 12]) &&
+		    c[i + 13] == ':' && (i + 14 >= n || !isdig(c[i + 14])) && atoi(c.substr(i + 11, 2).c_str()) <= 24) {
+			toks.push_back(t);
+			i += 14;
+			continue;
 		}
 		if (!postch(c, i + t.len))
 			return false;
@@ -251,7 +259,8 @@ std::string gen_line(Rng &r, size_t target_len, int flavour)
 		return s;
 	if (flavour == 4) {
 		static const char *pre[] = {"", " ", "x", "(", "=", "[", "\"", "log "};
-		static const char *post[] = {".", ".x", ". x", ":", ":x", ": x", "+", "+x", "T", "Tx", "x", ",", ")", ";", "]", "\"", "!", "", " x"};
+		static const char *post[] = {".", ".x", ". x", ":", ":x", ": x", "+", "+x", "T", "Tx", "x", ",", ")", ";", "]", "\"", "!", "", " x",
+					     " 12:xx", "T09:", " 23:y", "\t07:?", " 24:", " 00: x"};
 		int nt = (int)r.range(1, 3);
 		if (r.chance(1, 10))
 			nt = (int)r.range(4, 12);	/* many values on one line */
@@ -270,8 +279,14 @@ std::string gen_line(Rng &r, size_t target_len, int flavour)
 			s += tok;
 			if (nulpost)
 				s += std::string(1, '\0') + (r.chance(1, 2) ? "y" : "");
-			else
-				s += post[r.below(sizeof(post) / sizeof(*post))];
+			else {
+				const char *ps = post[r.below(sizeof(post) / sizeof(*post))];
+				if (strlen(ps) >= 4 && isdig(ps[1]) && tok.size() != 10) {
+					s.erase(s.size() - tok.size());
+					s += tok.substr(0, 10);
+				}
+				s += ps;
+			}
 		}
 		if (r.chance(1, 2))
 			s += " " + safe_lit(r, (size_t)r.below(6), false);
@@ -325,6 +340,7 @@ struct StreamEngine : Engine {
 			go.tool = st[r.below(3)];
 			go.force_mode = 2;
 			go.max_if = 1;
+			go.sed_families = true;
 			go.one_line = true;
 			go.sed_default_forms = true;
 			giv = inv::rand_inv(r, go);
